@@ -56,13 +56,6 @@ def _env_inputs(a, c):
     ins += [c.aw.ready, c.w.ready, c.ar.ready]
     return ins
 
-def _dut_outputs(a, c):
-    """every signal the converter drives"""
-    outs = []
-    for ch in ("aw", "w", "ar"): outs += [getattr(c, ch).valid, getattr(c, ch).first, getattr(c, ch).last] + pay(getattr(c, ch)) + [getattr(a, ch).ready]
-    for ch in ("b", "r"): outs += [getattr(a, ch).valid, getattr(a, ch).first, getattr(a, ch).last] + pay(getattr(a, ch)) + [getattr(c, ch).ready]
-    return outs
-
 def _log2(n): return n.bit_length() - 1
 
 # ---------------------------------------------------------------------------------------------------
@@ -202,7 +195,7 @@ def c_up_bursts(dw_from, dw_to):
         else:
             whole = (beats_f & K(r - 1, W)) == 0
             h.ensure("ens.ar.len-matches-datapath@whole-words", z3.Implies(whole, (beats_t << lr) == beats_f))
-            h.finding("finding.ar.surplus-read-beats", (beats_t << lr) == beats_f,
+            h.finding("finding.ar.surplus-read-beats", z3.Implies(z3.Not(whole), (beats_t << lr) == beats_f),
                       "AXIUpConverter R: every wide beat is split into `ratio` narrow beats whatever the requested length: a read burst whose length is not a multiple of the ratio "
                       "(every single-beat read, e.g. a 32-bit load through 32->64) is answered with ratio*ceil((len+1)/ratio) data beats - the master receives beats it did not "
                       "ask for and `last` comes on a surplus beat, not on beat len")
@@ -215,7 +208,7 @@ def c_up_bursts(dw_from, dw_to):
         h.finding(f"finding.{ch}.unaligned-start-any-burst", z3.Implies(z3.And(legal, full, z3.Not(aligned), inb), same_word),
                   "same root cause as the listed finding.a?.unaligned-start (start address kept, data packed by beat index), stated for every burst type and length: a "
                   "burst that starts off a wide-word boundary (single 32-bit access at address 4 through 32->64) has its data in lanes 0.. although the address selects the upper lanes")
-        h.finding(f"finding.{ch}.narrow-lanes", z3.Implies(z3.And(legal, INCR, z3.ULT(fs, K(lf, 3)), aligned, fl != K(0, 8), inb), same_word),
+        if lf > 0: h.finding(f"finding.{ch}.narrow-lanes", z3.Implies(z3.And(legal, INCR, z3.ULT(fs, K(lf, 3)), aligned, fl != K(0, 8), inb), same_word),
                   "AXIUpConverter packs by beat index whatever the size (the code notes the assumption of full-width bursts): for a narrow INCR burst (size below the "
                   "source bus width, several beats per narrow word) beat i is put into lane group i mod ratio although its address stays in the same narrow word")
         h.cover(f"cover.{ch}.wrap", z3.And(b(V(t.valid)), legal, WRAP, full, aligned, long_wrap, i == K(3, 8), inb), depth=1)
@@ -372,10 +365,6 @@ def c_dispatch(dw_from, dw_to):
     if ra is not None and rb is not None and len(ra) == len(rb) and all(x.nbits == y.nbits for x, y in zip(ra, rb)) and all(x in h.ts.var and y in h.ts.var for x, y in zip(ra, rb)):
         for n_, (x, y) in enumerate(zip(ra, rb)): h.hint(f"reg{n_}.equal", V(x) == V(y))
     else: h.use_auto = True
-    pre = [res("struct.same-state-shape", "ensures", PROVED if (ra is not None and rb is not None and [x.nbits for x in ra] == [y.nbits for y in rb]) else VIOLATED, 0, "structural",
-               info=f"registers of the dispatched converter {[x.nbits for x in ra or []]} vs of {ref_cls.__name__} {[y.nbits for y in rb or []]}")]
-    h.pre_results = pre
-    outs, outs2 = _dut_outputs(d.a, d.c), _dut_outputs(d.a2, d.c2)
     for ch in ("aw", "w", "ar", "b", "r"):
         src, src2 = (d.c, d.c2) if ch in ("aw", "w", "ar") else (d.a, d.a2)
         dst, dst2 = (d.a, d.a2) if ch in ("aw", "w", "ar") else (d.c, d.c2)
@@ -384,7 +373,6 @@ def c_dispatch(dw_from, dw_to):
         h.ensure(f"ens.{ch}.equal", z3.And(*[V(x) == V(y) for x, y in zip(sigs, sigs2)]))
         h.ensure(f"ens.{ch}.ready-equal", V(getattr(dst, ch).ready) == V(getattr(dst2, ch).ready))
     lr = abs(_log2(dw_from) - _log2(dw_to)); r = 1 << lr
-    wide_side_fire = _fire(h, d.c.r) if dw_from > dw_to else _fire(h, d.a.w)
     h.cover("cover.packed-beat-delivered", _fire(h, d.a.r) if dw_from > dw_to else _fire(h, d.c.w), depth=r + 2)
     h.cover("cover.split-last", z3.And(_fire(h, d.c.w), b(V(d.c.w.last))) if dw_from > dw_to else z3.And(_fire(h, d.a.r), b(V(d.a.r.last))), depth=r + 1)
     h.cover("cover.request", z3.And(_fire(h, d.c.aw), V(d.c.aw.len) != K(0, 8)), depth=1)
@@ -394,18 +382,16 @@ def c_dispatch(dw_from, dw_to):
 
 @_guard
 def c_passthrough(dw):
-    """equal widths: AXIConverter is a wire in both directions, for every signal of the five channels, and has no state"""
+    """equal widths: AXIConverter is a wire in both directions, for every signal of the five channels, in every cycle"""
     a, c = _ifs(dw, dw)
     d = _mk(AXIConverter, a, c)
     h = HwCheck(f"AXIConverter({dw}->{dw})", d, _env_inputs(a, c))
     V = h.v
-    h.pre_results = [res("struct.no-state", "ensures", PROVED if not h.ts.state else VIOLATED, 0, "structural", info=f"{len(h.ts.state)} registers")]
     for ch in ("aw", "w", "ar", "b", "r"):
         m2s = ch in ("aw", "w", "ar")
         src, dst = (getattr(a, ch), getattr(c, ch)) if m2s else (getattr(c, ch), getattr(a, ch))
-        for s1, s2 in zip([src.valid, src.first, src.last] + pay(src), [dst.valid, dst.first, dst.last] + pay(dst)):
-            nm = s1.name_override or s1.backtrace[-1][0]
-            h.ensure(f"ens.{ch}.{nm.split('_')[-1] if '_' in nm else nm}", V(s2) == V(s1))
+        for nm in ["valid", "first", "last"] + [f[0] for f in src.description.payload_layout + src.description.param_layout]:
+            h.ensure(f"ens.{ch}.{nm}", V(getattr(dst, nm)) == V(getattr(src, nm)))
         h.ensure(f"ens.{ch}.ready", V(src.ready) == V(dst.ready))
     h.cover("cover.request", z3.And(_fire(h, c.aw), V(c.aw.burst) == K(2, 2)), depth=1)
     h.cover("cover.read-data", z3.And(_fire(h, a.r), b(V(a.r.last))), depth=1)
@@ -427,15 +413,15 @@ def _patched(mod, **kw):
 def c_b2b_id(AW, maxsize, idw):
     """every clause of C10_axi_burst.c_burst2beat (AMBA beat addresses, first/last, consumed once, id) re-proved at id_width=idw (its stream interfaces are built
     with id_width=1: the constructor is parameterised here), plus the AXI hold rule for the WHOLE beat: valid, addr, first, last and id"""
-    orig = B.AXIStreamInterface
+    orig = B.AXIStreamInterface; made = []
     def wide_id(*a, **k):
-        k["id_width"] = idw; return orig(*a, **k)
+        k["id_width"] = idw; made.append(orig(*a, **k)); return made[-1]
     with _patched(B, AXIStreamInterface=wide_id, mk=_mk):
         h = B.c_burst2beat(AW, maxsize)
-    d = h.dut; loc = locals_of(d)
-    ax_burst, ax_beat = loc["ax_burst"], loc["ax_beat"]
+    ax_burst, ax_beat = made[0], made[1]                  # c_burst2beat builds the burst (request) stream first, then the beat stream
     V = h.v
-    assert V(ax_beat.id).size() == idw and V(ax_burst.id).size() == idw
+    if not (hasattr(ax_burst, "len") and not hasattr(ax_beat, "len") and V(ax_beat.id).size() == idw and V(ax_burst.id).size() == idw):
+        raise SidecarMismatch("C10_axi_burst.c_burst2beat no longer builds (ax_burst, ax_beat) in this order")
     h.name = f"AXIBurst2Beat(aw={AW},id={idw})"
     stalled = z3.And(b(V(ax_beat.valid)), z3.Not(b(V(ax_beat.ready))))
     tok = cat(V(ax_beat.addr), V(ax_beat.first), V(ax_beat.last), V(ax_beat.id))
@@ -443,7 +429,7 @@ def c_b2b_id(AW, maxsize, idw):
     for nm, s in (("first", ax_beat.first), ("id", ax_beat.id)):
         h.ensure_seq(f"ens.hold.{nm}", lambda at, s=s: z3.Implies(at(stalled, 0), at(V(s), 1) == at(V(s), 0)))
     # the id of every beat of the burst, not only while the request is visible: a beat is only offered while its request is (ens.valid + assumption), so this is ens.id; cover a wide id value
-    h.cover("cover.wide-id", z3.And(b(V(ax_beat.valid)), b(V(ax_beat.ready)), V(ax_beat.id) == K((1 << idw) - 2, idw), z3.Not(b(V(ax_beat.first)))), depth=3)
+    h.cover("cover.wide-id", z3.And(b(V(ax_beat.valid)), b(V(ax_beat.ready)), V(ax_burst.id) == K((1 << idw) - 2, idw), z3.Not(b(V(ax_beat.first)))), depth=3)
     return h
 
 # ---------------------------------------------------------------------------------------------------
@@ -472,4 +458,5 @@ ASSUMPTIONS = ["converter address channels: the clauses quantify over AXI-legal 
                "the beat-address clauses take the lane map of the data paths (narrow beat k*ratio+j <-> lanes j of wide beat k; proved in C10_axi_datapath.py) as the definition of which bytes a beat carries",
                "side bands: the partner that drives a data channel holds valid and the whole payload, side band included, until ready (AXI A3.2.1)",
                "surplus-beat clause: M is an arbitrary fixed set of active byte lanes; the antecedent `strobes inside M` is the AXI rule that lanes outside a narrow transfer carry no strobes",
+               "burst-type cases are AXI4 interfaces (8-bit len, 3-bit size); AXI3 is elaborated in the side-band cases only (WID)",
                "AXIConverter equivalence: the reference converter is the real class instantiated a second time in the same harness module and fed the same inputs by harness wires"]
